@@ -275,6 +275,8 @@ def cv_worker(job):
             return out
         kw = default_kw(rng, opts.get('vary', True), opts.get('exception'), opts.get('enzymes'))
         kw.update(opts.get('kw', {}))
+        for k_, choices in opts.get('kw_choices', {}).items():
+            kw[k_] = rng.choice(choices)
         if case.meta.get('special') == 'sec' and rng.random() < 0.8 \
                 and 'selenocysteine_termination' not in opts.get('kw', {}):
             kw['selenocysteine_termination'] = True
